@@ -41,7 +41,7 @@ fn rows_of_class(n: usize, p: usize, class: DataClass) -> BoxedStrategy<Mat> {
                 pts.iter()
                     .map(|(s, noise)| {
                         let c = &centres[idx(*s, centres.len())];
-                        c.iter().zip(noise).map(|(c, g)| round20(4.0 * c + 0.125 * g)).collect()
+                        c.iter().zip(noise).map(|(c, g)| round20(1.5 * c + 0.125 * g)).collect()
                     })
                     .collect()
             })
@@ -75,6 +75,11 @@ pub fn kernel_method() -> impl Strategy<Value = KM> {
 /// bandwidth 10^(e/4), e in -8..=8  (10^-2 .. 10^2)
 pub fn gaussian_method() -> impl Strategy<Value = KM> {
     (-8i32..=8).prop_map(|e| KM::Gaussian(10f64.powf(e as f64 / 4.0)))
+}
+
+/// bandwidth 10^(e/4), e in 0..=8 (1 .. 100): few similarities fall below the 1e-6 floor
+pub fn wide_gaussian_method() -> impl Strategy<Value = KM> {
+    (0i32..=8).prop_map(|e| KM::Gaussian(10f64.powf(e as f64 / 4.0)))
 }
 
 pub fn link() -> impl Strategy<Value = Link> {
